@@ -60,7 +60,7 @@ func (c17) Runs(t Tier) int {
 }
 func (c17) RecordWidths() map[string]int { return map[string]int{"ops": 3} }
 func (c17) RequiredProbes() []string {
-	return []string{"dir-cold", "dir-warm", "file-node", "plain-dir-node", "two-tasks-parked-on-same-shard-cold", "length-concurrent-with-lookup", "iteration-concurrent-with-lookup", "readers-interleaved", "tasks>=4"}
+	return []string{"dir-cold", "dir-warm", "file-node", "plain-dir-node", "linksystem-with-node-reifier", "two-tasks-parked-on-same-shard-cold", "length-concurrent-with-lookup", "iteration-concurrent-with-lookup", "readers-interleaved", "tasks>=4"}
 }
 
 type c17Scenario struct {
@@ -191,6 +191,7 @@ func (c17) Run(ts *tape.Set, tier Tier) *Result {
 	isPlain := nodePick == 2
 	nTasks := 2 + shape.Pick(4, 3, 2, 1, 1)
 	warm := shape.Intn(3) == 2
+	nodeReifier := shape.Intn(3) == 2
 	st := store.New()
 	sc := &c17Scenario{Warm: warm}
 	res.Scenario = sc
@@ -319,7 +320,7 @@ func (c17) Run(ts *tape.Set, tier Tier) *Result {
 		panicked, site, pmsg := guard(func() {
 			for t := range taskOps {
 				for _, op := range taskOps[t] {
-					w := world.New(st, false)
+					w := newWorld(st, false, nodeReifier)
 					var n datamodel.Node
 					var err error
 					if isFile {
@@ -366,6 +367,10 @@ func (c17) Run(ts *tape.Set, tier Tier) *Result {
 	}
 	_ = parkedOn
 	unixfsnode.AddUnixFSReificationToLinkSystem(&ls)
+	if nodeReifier {
+		ls.NodeReifier = unixfsnode.Reify
+		res.probe("linksystem-with-node-reifier")
+	}
 	var shared datamodel.Node
 	{
 		// opened exactly like the sequential reference, only over the
